@@ -226,8 +226,11 @@ func (s *Server) handleProposeVersions(msg protocol.Message) error {
 	}
 	// Accept the proposed version
 	// We send our version data in the response and the proposed version data in the callback
+	// Wait for the message to be written to the connection before reporting
+	// the handshake as finished: the callback starts the other mini-protocols,
+	// and none of their messages may precede AcceptVersion on the wire
 	msgAcceptVersion := NewMsgAcceptVersion(proposedVersion, versionData)
-	if err := s.SendMessage(msgAcceptVersion); err != nil {
+	if err := s.SendMessageAndWait(msgAcceptVersion); err != nil {
 		return err
 	}
 	return s.config.FinishedFunc(
